@@ -35,7 +35,7 @@ pub struct MuxStream {
     /// See `Multiplexor::tx_msg_tx`
     pub(super) tx_msg_tx: mpsc::UnboundedSender<Message>,
     /// See `Multiplexor::dropped_flows_tx`
-    pub(super) dropped_flows_tx: mpsc::UnboundedSender<u32>,
+    pub(super) dropped_flows_tx: mpsc::UnboundedSender<crate::DroppedFlow>,
     /// Number of `Push` frames between [`Acknowledge`](frame::OpCode::Acknowledge)s:
     /// If too low, `Acknowledge`s will consume too much bandwidth;
     /// If too high, writers may block.
@@ -65,7 +65,10 @@ impl Drop for MuxStream {
     fn drop(&mut self) {
         // Notify the task that this port is no longer in use
         self.dropped_flows_tx
-            .send(self.flow_id)
+            .send(crate::DroppedFlow {
+                flow_id: self.flow_id,
+                finish_sent: self.finish_sent.clone(), // cheap
+            })
             // Maybe the task has already exited, who knows
             .ok();
     }
